@@ -460,8 +460,11 @@ fn c18_gen(seed: u64, k: u64) -> C18Case {
     let (what, must_reject, expect): (String, Vec<usize>, &str) = match k % kinds {
         0 => {
             let x = bad_idx(&mut rng);
-            spec.overrides.push(ArgOverride { party: p, p_own: Some(x), ..Default::default() });
-            (format!("own-index: p_own={x} (n={n})"), vec![p], "reject")
+            // the input vector that goes with a non-existent index: the party's own one, or none at all
+            let input = if rng.random_bool(0.5) { Some(String::new()) } else { None };
+            let il = input.as_ref().map(|i| i.len()).unwrap_or(spec.inputs[p].len());
+            spec.overrides.push(ArgOverride { party: p, p_own: Some(x), input, ..Default::default() });
+            (format!("own-index: p_own={x} (n={n}) with {il} input bits"), vec![p], "reject")
         }
         1 => {
             let x = bad_idx(&mut rng);
